@@ -116,7 +116,7 @@ class BitsetProgram(Program):
     def _resolve(self, fr, callee):
         m = re.match(r'^Bitset::<N>::(\w+)$', callee)
         if m:
-            c = [f for f in self.fns if f.name.endswith('::' + m.group(1)) and '{closure' not in f.name and 'Formatter' not in f.header and 'Bitset<N>' in f.header]
+            c = [f for f in self.fns if f.name.endswith('::' + m.group(1)) and '{closure' not in f.name and not (m.group(1) == 'fmt' and 'Formatter' in f.header) and 'Bitset<N>' in f.header]
             if len(c) != 1:
                 raise Unsupported('cannot locate a unique Bitset::%s (%d candidates)' % (m.group(1), len(c)))
             return c[0], fr.subst
